@@ -270,7 +270,7 @@ Section AdminCalls.
     destruct (get (f_heap s) oc) as [[ch m|d k i m|t m]|].
     - destruct (_ && _).
       + destruct (_ && _); [cl0|]. destruct (win v); cl0.
-      + destruct (_ || _); [cl0|]. destruct (negb _); cl0.
+      + destruct (_ || _); [cl0|]. destruct (negb _); [cl0|]. rewrite Ha. cbn [negb]. rewrite andb_false_r. cl0.
     - destruct (_ || _); [cl0|]. destruct (sr_child rn) as [nc|]; [|cl0]. rewrite (sticky_admin _ _ _ _ Ha).
       destruct (get (f_heap s) nc) as [[? ?|? ? ? ?|? ?]|]; cl0.
     - destruct (_ || _); [cl0|]. destruct (sr_child rn) as [nc|]; [|cl0]. rewrite (sticky_admin _ _ _ _ Ha).
